@@ -55,10 +55,10 @@ class Typedef(Item):
 class Enum(Item):
     kind = 'enum'
     def __init__(self, name, members, **kw):
-        Item.__init__(self, name, **kw); self.members = members      # [(name, value or None)]
+        Item.__init__(self, name, **kw); self.members = members      # [(name, value or None[, {annotation: text}])]
     def numbers(self):
         out, nxt = [], 0
-        for n, v in self.members:
+        for n, v in (m[:2] for m in self.members):
             if v is None:
                 v = nxt
             out.append((n, v)); nxt = v + 1
@@ -101,6 +101,13 @@ class Doc:
         self.configs = configs      # None = every builder configuration
     def module(self):
         return self.namespace.replace('.', '::') if self.namespace else self.name
+
+
+OPT_IN_CONFIGS = ('nocase',)      # Builder::change_case(false): only the documents written for it
+
+
+def doc_in_config(configs, cfg):
+    return (cfg not in OPT_IN_CONFIGS) if configs is None else cfg in configs
 
 
 def upper_camel(s):
@@ -172,8 +179,9 @@ def doc_idl(doc):
             out.append('typedef %s %s%s' % (ty_idl(it.ty), it.name, ann_idl(it.ann)))
         elif it.kind == 'enum':
             out.append('enum %s {' % it.name)
-            for n, v in it.members:
-                out.append('    %s%s%s' % (n, '' if v is None else ' = %d' % v, sep))
+            for m in it.members:
+                n, v = m[:2]
+                out.append('    %s%s%s%s' % (n, '' if v is None else ' = %d' % v, ann_idl(m[2]) if len(m) > 2 else '', sep))
             out.append('}' + ann_idl(it.ann))
         elif it.kind in ('struct', 'union'):
             kw = 'exception' if getattr(it, 'exception', False) else it.kind
@@ -218,8 +226,7 @@ class Schema:
         decl['configs'] = self.docs[name.split('.')[0]].configs
 
     def in_config(self, name, cfg):
-        c = self.types[name].get('configs')
-        return c is None or cfg in c
+        return doc_in_config(self.types[name].get('configs'), cfg)
 
     def names_in(self, cfg):
         return [n for n in self.order if self.in_config(n, cfg)]
@@ -1192,6 +1199,73 @@ def corpus():
                                      F(5, 'inc', R('inc.Pt'), 'default', LM((Str('x'), I(1)), (Str('y'), I(2))))]),
         ]),
     ], includes=['inc'], style=2, configs=('plain', 'split')))
+
+    # ---- denum: how an enum MEMBER is named in a lowered default.  Member names that collide after case conversion keep their
+    # IDL spelling (Context::names), a member can be renamed by pilota.name; a default BY NUMBER has to name the member the way
+    # the enum's definition does.  Defaults by number and by name at fields, list / set elements, map keys / values, typedef'd
+    # targets, through consts, in argument lists
+    docs.append(Doc('denum', [
+        Enum('Level', [('low', 1), ('LOW', 2), ('Low', 3), ('fooBar', 4), ('FOO_BAR', 5), ('plain_one', 6), ('Plain_Two', -7)]),
+        Enum('Ren', [('ALPHA', 1, {'pilota.name': 'First'}), ('beta', 2, {'pilota.name': 'SECOND_ONE'}), ('GAMMA', 3), ('gamma', 4)]),
+        Typedef('Lv', R('Level')), Typedef('Levels', L(R('Level'))),
+        Const('K_L1', R('Level'), I(1)), Const('K_L3N', R('Level'), Id('Level.Low')), Const('K_R2', R('Ren'), I(2)),
+        Const('K_LIST', L(R('Level')), LL(I(1), Id('Level.LOW'), I(3), I(4))), Const('K_MAP', M('string', R('Level')), LM((Str('a'), I(3)), (Str('b'), Id('Level.low')))),
+        Struct('EnumD', [
+            F(1, 'n1', R('Level'), 'default', I(1)), F(2, 'n2', R('Level'), 'required', I(2)), F(3, 'n3', R('Level'), 'optional', I(3)),
+            F(4, 'n4', R('Level'), 'default', I(4)), F(5, 'n5', R('Level'), 'default', I(5)), F(6, 'n6', R('Level'), 'default', I(6)),
+            F(7, 'n7', R('Level'), 'optional', I(-7)),
+            F(11, 'm1', R('Level'), 'default', Id('Level.low')), F(12, 'm2', R('Level'), 'required', Id('Level.LOW')),
+            F(13, 'm3', R('Level'), 'optional', Id('Level.Low')), F(14, 'm4', R('Level'), 'default', Id('Level.fooBar')),
+            F(15, 'm5', R('Level'), 'default', Id('Level.FOO_BAR')), F(16, 'm7', R('Level'), 'default', Id('Level.Plain_Two')),
+            F(20, 'l', L(R('Level')), 'default', LL(I(1), Id('Level.LOW'), I(3), Id('Level.low'), I(4))),
+            F(21, 's', S(R('Level')), 'optional', LL(I(3), I(1))), F(22, 'mv', M('string', R('Level')), 'default', LM((Str('a'), I(1)), (Str('b'), Id('Level.Low')), (Str('c'), I(3)))),
+            F(23, 'mk', M(R('Level'), 'string'), 'required', LM((I(1), Str('x')), (Id('Level.Low'), Str('y')))),
+            F(24, 'ml', M('i32', L(R('Level'))), 'default', LM((I(1), LL(I(3), I(1))))),
+            F(30, 'td', R('Lv'), 'default', I(3)), F(31, 'tdl', R('Levels'), 'optional', LL(I(1), I(5))),
+            F(40, 'c1', R('Level'), 'default', Id('K_L1')), F(41, 'c3', R('Level'), 'optional', Id('K_L3N')), F(42, 'cl', L(R('Level')), 'default', Id('K_LIST')),
+            F(43, 'cm', M('string', R('Level')), 'default', Id('K_MAP')), F(44, 'ci', 'i32', 'default', Id('Level.Low')), F(45, 'ck', 'i64', 'default', Id('K_L1')),
+            F(50, 'r1', R('Ren'), 'default', I(1)), F(51, 'r2', R('Ren'), 'required', I(2)), F(52, 'r4', R('Ren'), 'optional', I(4)),
+            F(53, 'ra', R('Ren'), 'default', Id('Ren.ALPHA')), F(54, 'rb', R('Ren'), 'default', Id('Ren.beta')), F(55, 'rl', L(R('Ren')), 'default', LL(I(2), Id('Ren.gamma'), I(3))),
+            F(56, 'rc', R('Ren'), 'default', Id('K_R2')),
+        ]),
+        Service('EnumSvc', [Method('pick', R('Level'), [F(1, 'a', R('Level'), 'default', I(1)), F(2, 'b', R('Level'), 'optional', I(3)),
+                                                       F(3, 'c', L(R('Ren')), 'default', LL(I(1), I(2)))])]),
+    ], style=2))
+
+    # ---- denumnc: the same with Builder::change_case(false) (configuration `nocase` only): every name is kept as written, so a
+    # member path built by any case conversion names nothing.  Type / field / module names here are invariant under the conversion
+    docs.append(Doc('denumnc', [
+        Enum('Level', [('low', 1), ('Mid', 2), ('HIGH', 3), ('veryHigh', 4)]),
+        Const('K_L', R('Level'), I(1)),
+        Struct('Nc', [F(1, 'a', R('Level'), 'default', I(1)), F(2, 'b', R('Level'), 'required', I(2)), F(3, 'c', R('Level'), 'optional', I(4)),
+                      F(4, 'd', R('Level'), 'default', Id('Level.low')), F(5, 'l', L(R('Level')), 'default', LL(I(4), Id('Level.Mid'), I(1))),
+                      F(6, 'm', M('string', R('Level')), 'default', LM((Str('k'), I(2)))), F(7, 'k', R('Level'), 'default', Id('K_L')),
+                      F(8, 'n', 'i32', 'default', I(5))]),
+    ], style=0, configs=('nocase',)))
+
+    # ---- sarg: structs that occur ONLY inside containers of method parameters / results (never as a parameter or result type
+    # themselves): they are no argument types (resolve.rs lower_type passes is_args = false into container components), so in a
+    # keep build their decoder is the ordinary one.  Every field is required: every element of a value carries all declared fields
+    docs.append(Doc('sarg', [
+        Struct('Item', [F(1, 'id', 'i32', 'required'), F(2, 'name', 'string', 'required')]),
+        Struct('SetEl', [F(1, 'id', 'i64', 'required'), F(2, 'on', 'bool', 'required')]),
+        Struct('MapVal', [F(1, 'text', 'string', 'required'), F(2, 'n', 'i16', 'required')]),
+        Struct('MapKey', [F(1, 'k', 'i32', 'required'), F(2, 'tag', 'string', 'required')]),
+        Struct('Deep', [F(1, 'v', 'i64', 'required'), F(2, 'tags', L('string'), 'required')]),
+        Struct('Deeper', [F(1, 'b', 'binary', 'required'), F(2, 'x', 'i8', 'required')]),
+        Struct('ResEl', [F(1, 'code', 'i32', 'required'), F(2, 'msg', 'string', 'required')]),
+        Struct('ResVal', [F(1, 'ok', 'bool', 'required'), F(2, 'why', 'string', 'required')]),
+        Struct('Both', [F(1, 'a', 'i32', 'required'), F(2, 'b', 'i64', 'required')]),
+        Service('Bag', [
+            Method('putList', 'void', [F(1, 'items', L(R('Item')))], camel='PutList'),
+            Method('putSet', 'void', [F(1, 'items', S(R('SetEl'))), F(2, 'after', 'i32')], camel='PutSet'),
+            Method('putMap', 'void', [F(1, 'm', M('i32', R('MapVal')))], camel='PutMap'),
+            Method('putKey', 'void', [F(1, 'm', M(R('MapKey'), 'string'))], camel='PutKey'),
+            Method('nested', L(L(R('Deep'))), [F(1, 'mm', M('string', L(R('Deeper'))), 'optional')]),
+            Method('getList', L(R('ResEl')), [], camel='GetList'),
+            Method('getMap', M('string', R('ResVal')), [F(1, 'both', L(R('Both'))), F(2, 'again', S(L(R('Both'))))], camel='GetMap'),
+        ]),
+    ], style=1))
 
     # ---- evo: shapes aimed at schema evolution / failure-path properties (C08, C13, C19)
     docs.append(Doc('evo', [
